@@ -14,6 +14,15 @@ COMMON_NOTE = ("Trusted: Coq 8.16.1 kernel (coqc full .vo build; vm_compute for 
 
 # id -> (claimed text, level note (specific), design ref)
 CHECKS = {
+    "C10": ("14 theorems (C10_wire_spec: the timed deliveries/losses of every admissible execution are exactly the property's recurrence "
+            "over arrivals and draws; delivery_time, fifo, delivery_instants_sorted, no_loss_exactly_once, lost_never_delivered, "
+            "lost_delays_nobody, loss_iff, never_late; cable_independent(_frame), cable_commute, cable_wiring, cable_outputs_go_across) "
+            "hold for every loss configuration, every admissible execution (all interleavings of puts and kernel micro-steps inside an "
+            "instant) and all draws of the Gallina models of Wire and Cable; the models are compared action by action with the real "
+            "Wire/Cable on 400 (quick) / 12000 (thorough) generated executions per run.",
+            "Full. 'With probability p' is read as: lost iff the uniform draw is < loss_rate. Admissibility of the real kernel's "
+            "executions (urgent steps before the clock advances) is checked on every observed execution, and is C01's theorem for the kernel model.",
+            "DESIGN.md section 4 C10, section 8"),
     "C16": ("ACK clause: C16_ack_is_prefix / C16_ack_monotone hold for every arrival sequence (any order, duplicates, gaps, missing first "
             "segment) of the Gallina model of TCPSink; the model is compared with the real TCPSink on 1000 (quick) / 20000 (thorough) "
             "generated arrival sequences per run; the pre-fix ACK choice is refuted by a witness (C16_ack_refuted_before_fix).",
